@@ -117,6 +117,19 @@ def rule_grammar(ctx: Ctx, rep: Report) -> None:
     rep.ob(rule, "_assert_position", any(c.op == "not in" and c.subject == "context" for c in refusal_constraints(ctx, ap)), ap.where(), "a function outside its allowed contexts is refused")
 
 
+def _ancestors(n: ast.AST):
+    n = parent(n)
+    while n is not None:
+        yield n
+        n = parent(n)
+
+
+def _enum_vars(fi) -> list[str]:
+    """Index variables of `for i, x in enumerate(...)` loops."""
+    return [n.target.elts[0].id for n in own_nodes(fi.node) if isinstance(n, ast.For) and isinstance(n.iter, ast.Call) and call_name(n.iter) == "enumerate"
+            and isinstance(n.target, ast.Tuple) and isinstance(n.target.elts[0], ast.Name)]
+
+
 def rule_is_mine(ctx: Ctx, rep: Report) -> None:
     """C14.is_mine: recognition is whole-script equality over every branch and index."""
     rule = "C14.is_mine"
@@ -154,15 +167,26 @@ def rule_is_mine(ctx: Ctx, rep: Report) -> None:
     rep.ob(rule, "index_of:not_mine_is_None", any(isinstance(r.value, ast.Constant) and r.value.value is None for r in rets), io.where(), "no match answers None")
     po = ctx.func(f"{WA}.RangedWallet.position_of")
     txt = PT.text(po)
-    rep.ob(rule, "position_of:whole_script", "self._script_pub_key(branch, index).script == script" in txt, po.where(), "whole-script equality")
-    rep.ob(rule, "position_of:all_branches", "for branch in self.branches" in txt and "for index in range(last_index + 1)" in txt, po.where(), "every branch, indexes 0..last_index inclusive")
+    mpo: dict[str, str] = {}
+    sol = PT.solve(po.node, ["for $br in self.branches:\n    $$_", "for $ix in range(last_index + 1):\n    $$_", "self._script_pub_key($br, $ix).script == $sc", "$sc = _validated_script_from(script_pub_key)"], mpo)
+    loops_ = [n for n in own_nodes(po.node) if isinstance(n, ast.For)]
+    br = [n for n in loops_ if norm(n.iter) == "self.branches" and isinstance(n.target, ast.Name)]
+    ix = [n for n in loops_ if norm(n.iter) in ("range(last_index + 1)", "range(0, last_index + 1)") and isinstance(n.target, ast.Name) and br and any(a is br[0] for a in _ancestors(n))]
+    cmp_w = [c for c in own_nodes(po.node) if isinstance(c, ast.Compare) and len(c.ops) == 1 and isinstance(c.ops[0], ast.Eq) and br and ix
+             and PT.match(PT.compile_("self._script_pub_key($br, $ix).script == $sc"), c, {"br": br[0].target.id, "ix": ix[0].target.id})]
+    rep.ob(rule, "position_of:whole_script", bool(cmp_w), po.where(), "whole-script equality")
+    rep.ob(rule, "position_of:all_branches", bool(br) and bool(ix), po.where(), "every branch, indexes 0..last_index inclusive")
     for fi in (io, po):
         cmp_ = [n for n in own_nodes(fi.node) if isinstance(n, ast.Compare) and "script" in norm(n)]
         rep.ob(rule, f"{fi.name}:equality_only", bool(cmp_) and all(isinstance(n.ops[0], ast.Eq) and len(n.ops) == 1 for n in cmp_) and not any(call_name(c) in ("startswith", "endswith", "hash160", "find") for c in own_nodes(fi.node) if isinstance(c, ast.Call)),
                fi.where(), "the decision is `==`, never a prefix, a hash or a containment test")
     ad = ctx.func(f"{WA}.RangedWallet.assert_derives")
     cs = refusal_constraints(ctx, ad)
-    rep.ob(rule, "assert_derives:mismatch", any(c.op == "!=" and {c.subject, c.value_text} == {"script", "scripts[offset]"} for c in cs), ad.where(), "a written output that differs from the derived one is refused")
+    mad: dict[str, str] = {}
+    dv = PT.find(ad.node, "$scripts = [self.script_pub_key(branch, first_index + $o).script for $o in range(len(addresses))]", mad)
+    lp = PT.find(ad.node, "$sc = _validated_script_from($a)", mad)
+    okm = dv is not None and lp is not None and any(c.op == "!=" and {str(c.subject), str(c.value_text).split(" |")[0]} in ({mad["sc"], f"{mad['scripts']}[{x}]"} for x in _enum_vars(ad)) for c in cs)
+    rep.ob(rule, "assert_derives:mismatch", okm, ad.where(), "a written output that differs from the derived one is refused")
     rep.ob(rule, "assert_derives:repeats", any(c.subject == "len(set(scripts))" and c.op == "!=" for c in cs), ad.where(), "one output derived twice is refused")
     rep.ob(rule, "assert_derives:empty", any(c.subject == "addresses" and c.op == "falsy" for c in cs), ad.where(), "an empty span is refused")
     # wallet kinds implement the hooks
